@@ -3,7 +3,10 @@
 SECS="${1:-300}"; shift
 IDS="${@:-C01 C03 C04 C05 C06 C07 C08 C10 C11 C12 C13 C14 C15 C16 C17 C18 C19 C20}"
 export WPSIM_OUT="${WPSIM_OUT:-$(pwd)}"
+# private copy of the binary: later rebuilds in /verif/.target (e.g. with a seeded change applied) must not reach this run
+BIN="$WPSIM_OUT/.wpsim.soak.$$"; cp /verif/.target/release/wpsim "$BIN" || exit 2
+trap 'rm -f "$BIN"' EXIT
 for id in $IDS; do
-  /verif/.target/release/wpsim check $id --tier thorough --secs $SECS --seed ${SOAK_SEED:-5000000}
+  "$BIN" check $id --tier thorough --secs $SECS --seed ${SOAK_SEED:-5000000}
   echo "== $id exit=$?"
 done
